@@ -52,7 +52,7 @@ theorem dtype_stable (cfg : Cfg) (hfix : cfg.rowViewsFix = true) (s s' : State Î
   have hleak : leak cfg s = false := by simp [leak, h0, hfix]
   have hlv : âˆ€ form (vs : List (List Î±)), leakVal cfg form vs = false := by
     intro form vs; simp [leakVal, hfix]
-  cases op <;> simp only [step] at hstep
+  cases op <;> simp only [step, npLeftStep] at hstep
   case setRows sel vs form =>
     split at hstep
     Â· cases hstep
@@ -62,6 +62,16 @@ theorem dtype_stable (cfg : Cfg) (hfix : cfg.rowViewsFix = true) (s s' : State Î
         | (injection hstep with hstep; injection hstep with e1 e2; subst e1;
            rename_i hh; have := initRows_obj hh; simp_all)
         | cases hstep
+  case npLeft f rebind =>
+    repeat' split at hstep
+    all_goals first
+      | (injection hstep with hstep; injection hstep with e1 e2; subst e1;
+         first
+          | exact h0
+          | (rename_i hh; have := mapOp_obj hh; simp_all)
+          | (rename_i hh _; have := mapOp_obj hh; simp_all)
+          | (rename_i hh _ _; have := mapOp_obj hh; simp_all))
+      | cases hstep
   all_goals (repeat' split at hstep)
   all_goals first
     | (injection hstep with hstep; injection hstep with e1 e2; subst e1;
